@@ -33,6 +33,10 @@ def cases(tier, seed):
                 yield dict(kind='history', model=model, L=L, length=length, tier=tier,
                            d=int(rng.integers(2, 4)), entries=('complex', 'real')[int(rng.integers(2))],
                            seed=int(rng.integers(1 << 31)))
+    # tensor splitting / orthonormalization steps on identically vanishing blocks whose row and column charges share no value
+    # (a dead bond): the factors must still obey the sparsity rule under the returned bond charges
+    for r in range(120 if quick else 1200):
+        yield dict(kind='dead', d=int(rng.integers(1, 4)), seed=int(rng.integers(1 << 31)))
 
 
 # --------------------------------------------------------------------------------------------------------------
@@ -512,7 +516,66 @@ class _History:
             pass
 
 
+def _run_dead(c):
+    from . import oracle
+    from pytenet import bond_ops
+    rng = np.random.default_rng(c['seed'])
+    fails = []
+    d = c['d']
+    qd = [int(x) for x in rng.permutation(rng.integers(-1, 3, d))]
+    D0, D2 = int(rng.integers(1, 4)), int(rng.integers(1, 4))
+    qa = rng.integers(-2, 3, D0)
+    qb = rng.integers(-2, 3, D2) + 20            # unreachable from qa by two physical charges
+    qd = np.array(qd)
+    def fail(fn, clause, detail):
+        fails.append(dict(clause=clause, detail=f'dead bond, qd={qd.tolist()} qa={qa.tolist()} qb={qb.tolist()}: {detail}', signature=f'{fn}:{clause}:dead'))
+    # two-site block
+    for distr in ('left', 'right', 'sqrt'):
+        for tol in (0.0, 0.1):
+            Am = np.zeros((d * d, D0, D2), dtype=complex if rng.integers(2) else float)
+            try:
+                A0, A1, qbond = ptn.split_mps_tensor(Am, qd, qd, [qa, qb], distr, tol)
+            except Exception as e:
+                fail('split_mps_tensor', 'returns', f'{distr}, tol={tol}: raised {type(e).__name__}: {e}')
+                continue
+            qbond = np.asarray(qbond)
+            if not (A0.ndim == 3 and A1.ndim == 3 and A0.shape[2] == A1.shape[1] == len(qbond) and A0.shape[:2] == (d, D0) and A1.shape[0] == d and A1.shape[2] == D2):
+                fail('split_mps_tensor', 'wf', f'{distr}: shapes {A0.shape}, {A1.shape}, {len(qbond)} bond charges')
+                continue
+            if not oracle.qsparse(A0, [qd, qa, -qbond]):
+                fail('split_mps_tensor', 'sparsity', f'{distr}, tol={tol}: first factor violates the sparsity rule under the returned bond charges {qbond.tolist()}')
+            if not oracle.qsparse(A1, [qd, qbond, -qb]):
+                fail('split_mps_tensor', 'sparsity', f'{distr}, tol={tol}: second factor violates the sparsity rule under the returned bond charges {qbond.tolist()}')
+    # matrix level, rows and columns in arbitrary order
+    m, n = int(rng.integers(1, 6)), int(rng.integers(1, 6))
+    q0 = rng.permutation(rng.integers(-2, 3, m)); q1 = rng.permutation(rng.integers(-2, 3, n)) + 20
+    A = np.zeros((m, n))
+    for name, call in (('qr', lambda: bond_ops.qr(A, q0, q1)), ('split_matrix_svd', lambda: bond_ops.split_matrix_svd(A, q0, q1, 0.0))):
+        try:
+            out = call()
+        except Exception as e:
+            fail(name, 'returns', f'q0={q0.tolist()} q1={q1.tolist()}: raised {type(e).__name__}: {e}')
+            continue
+        left, right, qi = out[0], out[-2], np.asarray(out[-1])
+        if not (oracle.qsparse(left, [q0, -qi]) and oracle.qsparse(right, [qi, -q1])):
+            fail(name, 'sparsity', f'q0={q0.tolist()} q1={q1.tolist()}: factors violate the sparsity rule under {qi.tolist()}')
+    # single-site local steps with a dead right / left bond
+    try:
+        Az = np.zeros((d, D0, D2))
+        An = np.zeros((d, D2, 1))
+        for fn in (ptn.mps.local_orthonormalize_left_qr, ptn.mps.local_orthonormalize_left_svd) if hasattr(ptn.mps, 'local_orthonormalize_left_svd') else (ptn.mps.local_orthonormalize_left_qr,):
+            r = fn(Az, An, qd, [qa, qb]) if fn is ptn.mps.local_orthonormalize_left_qr else fn(Az, An, qd, [qa, qb], 0.0)
+            Anew, qn = r[0], np.asarray(r[2])
+            if not oracle.qsparse(Anew, [qd, qa, -qn]):
+                fail(fn.__name__, 'sparsity', f'site tensor violates the sparsity rule under the new bond charges {qn.tolist()}')
+    except Exception as e:
+        fail('local_orthonormalize_left', 'returns', f'raised {type(e).__name__}: {e}')
+    return dict(failures=fails, nontrivial=True, key=json.dumps(c, sort_keys=True))
+
+
 def run_case(c):
+    if c.get('kind') == 'dead':
+        return _run_dead(c)
     h = _History(c)
     h.run()
     nt = h.nops >= 2 and H.nontrivial(*[o.x for o in h.pool if not o.taint]) if h.pool else False
